@@ -24,8 +24,11 @@ exec 9>"$VERIF/.work/.lock"
 flock 9
 if [ -f "$W/.ok" ]; then touch "$W/.ok"; echo "$W"; exit 0; fi
 
-# keep the three most recently used work dirs
-ls -1dt "$VERIF"/.work/*/ 2>/dev/null | grep -E '/[0-9a-f]{16}/$' | tail -n +$((${VERIF_KEEP_WORK:-3}+1)) | while read -r d; do rm -rf "$d"; done
+# keep the three most recently used work dirs, and never remove one that was used in the last two hours
+# (another run - e.g. against a scratch copy of the repository - may still be using it)
+ls -1dt "$VERIF"/.work/*/ 2>/dev/null | grep -E '/[0-9a-f]{16}/$' | tail -n +$((${VERIF_KEEP_WORK:-3}+1)) | while read -r d; do
+	if [ -z "$(find "$d.ok" -mmin -120 2>/dev/null)" ]; then rm -rf "$d"; fi
+done
 
 rm -rf "$W"; mkdir -p "$W"
 LOG="$W/build.log"
